@@ -738,14 +738,21 @@ pub fn directed(ctx: &Ctx, want: &str) -> Report {
         (100.0, 15.0),
     ];
     if small {
-        cfgs.truncate(9);
+        // under the interpreter: a few configurations, chosen by the seed, at reduced depth
+        let n = ctx.budget(3, 3, 3) as usize;
+        let start = (ctx.seed as usize * 5) % cfgs.len();
+        cfgs = (0..n.max(1)).map(|k| cfgs[(start + k * 3) % cfgs.len()]).filter(|(fs, t)| (*t as f64) * (*fs as f64) <= 60.0).collect();
+        if cfgs.is_empty() {
+            cfgs.push((100.0, 0.01));
+        }
     }
     par_shards(ctx, cfgs.len(), |j| {
         let mut rep = Report::new();
         let (fs, t) = cfgs[j];
         let n = phase_ticks(t, fs);
         let e = enough(n);
-        for &s in &[1.0f32, 0.0, 0.5, 0.25, 0.9] {
+        let levels: &[f32] = if small { &[0.5] } else { &[1.0, 0.0, 0.5, 0.25, 0.9] };
+        for &s in levels {
             let mut ops = vec![Op::Attack(t), Op::Decay(t), Op::Sustain(s), Op::Release(t)];
             // full cycle, then every gate event at every offset class of every phase
             ops.extend([Op::GateOn, Op::Tick(2 * e + 3), Op::GateOff, Op::Tick(e + 3)]);
@@ -753,6 +760,10 @@ pub fn directed(ctx: &Ctx, want: &str) -> Report {
                 let mut v = vec![0, 1, 2, (n as u64) / 4, (n as u64) / 2, (n as u64).saturating_sub(1), n as u64, n as u64 + 1, e];
                 v.sort();
                 v.dedup();
+                if small {
+                    v = vec![0, 1, (n as u64) / 2];
+                    v.dedup();
+                }
                 v
             };
             for &k in &offs {
@@ -772,8 +783,8 @@ pub fn directed(ctx: &Ctx, want: &str) -> Report {
 
 /// seeded random histories
 pub fn random(ctx: &Ctx, want: &str) -> Report {
-    let n_hist = ctx.budget(24, 6_000, 400_000);
-    let shards = if ctx.tier == Tier::Small { 4 } else { 128usize };
+    let n_hist = ctx.budget(10, 6_000, 400_000);
+    let shards = if ctx.tier == Tier::Small { 2 } else { 128usize };
     par_shards(ctx, shards, |sh| {
         let mut rep = Report::new();
         let mut r = Rng::derive(ctx.seed, "adsr.random", sh as u64);
